@@ -20,6 +20,11 @@ func UnquoteAll(s string) string {
 			// dbg("skipping unquote; using: %s\n", s)
 			return s
 		}
+		if _, quoted := cv.(colval.Text); !quoted {
+			// a number or NULL written without quotes is not a string
+			// literal: normalizing it would change the value (007, 1e3)
+			return s
+		}
 		res += cv.String()
 		if len(p.Remaining) == 0 {
 			break
